@@ -14,7 +14,7 @@ Definition fixed_ok (fx : option N) : bool :=
 Inductive wfk : N -> fkind -> Prop :=
 | wf_uint t fx : t < two64 -> fixed_ok fx = true -> wfk t (KUint fx)
 | wf_bool t : t < two64 -> wfk t KBool
-| wf_bytes t s : t < two64 -> wfk t (KBytes s)
+| wf_kbytes t s : t < two64 -> wfk t (KBytes s)
 | wf_name : wfk TYPE_NAME KName
 | wf_model t fs ic : t < two64 -> wf_fields fs -> wfk t (KModel fs ic)
 | wf_rep t e : single e = true -> wfk t e -> wfk t (KRepeated e)
